@@ -28,9 +28,27 @@ var (
 
 const nServers = 6
 
-// maxLineLength is the MaxLineLength of every server of the pool and of the client (serverless sessions):
+// maxLineLength is the MaxLineLength of the first half of the pool's servers (and of the client in half of the
+// serverless sessions); the other half runs with the default of 1 MiB, so that records larger than one transport
+// read (32 KiB) occur as well:
 // small enough that generated lines reach and exceed it, so that split pieces take part in the interleaving.
 const maxLineLength = 6000
+
+const defaultMaxLineLength = 1 << 20
+
+// llOf is the MaxLineLength in force for a source.
+func llOf(c multiCase, server int) int {
+	if c.Serverless {
+		if c.SmallLL {
+			return maxLineLength
+		}
+		return defaultMaxLineLength
+	}
+	if server < nServers/2 {
+		return maxLineLength
+	}
+	return defaultMaxLineLength
+}
 
 func TestMain(m *testing.M) {
 	lib.Main(m, func() {
@@ -65,7 +83,7 @@ func pool() ([]*lib.Server, error) {
 		// server k only serves files below a directory named srv<k>
 		perm := &lib.Permissions{Default: []string{"^" + regexp.QuoteMeta(root) + "/.*/srv" + strconv.Itoa(k) + "/.*"}}
 		s, err := lib.StartServer(lib.ServerOpts{Dir: filepath.Join(root, fmt.Sprintf("server%d", k)), Label: fmt.Sprintf("host%d", k),
-			Cfg: lib.ServerCfg{MaxConcurrentCats: 2, MaxLineLength: maxLineLength, Permissions: perm}, Users: map[string][]string{"tester": {userKey.Authorized}}})
+			Cfg: lib.ServerCfg{MaxConcurrentCats: 2, MaxLineLength: map[bool]int{true: maxLineLength, false: defaultMaxLineLength}[k < nServers/2], Permissions: perm}, Users: map[string][]string{"tester": {userKey.Authorized}}})
 		if err != nil {
 			return nil, err
 		}
@@ -90,14 +108,16 @@ type multiCase struct {
 	Grep       bool // dgrep selecting the lines whose number is even
 	// grep context options (0 = not given)
 	Before, After, Max int
+	SmallLL            bool // serverless: MaxLineLength 6000 instead of the default
 }
 
 // the class at index 4 is "around MaxLineLength" (see lineOf)
-var lenClasses = []int{1, 20, 200, 3000, maxLineLength, 9000, 30000}
+var lenClasses = []int{1, 20, 200, 3000, maxLineLength, 9000, 30000, 70000}
 
 func genCase(t *rapid.T) multiCase {
 	var c multiCase
 	c.Serverless = rapid.IntRange(0, 4).Draw(t, "serverless") == 0
+	c.SmallLL = rapid.Bool().Draw(t, "small-ll")
 	c.Grep = rapid.IntRange(0, 3).Draw(t, "grep") == 0
 	ns := rapid.IntRange(2, nServers).Draw(t, "nservers")
 	if c.Serverless {
@@ -111,7 +131,7 @@ func genCase(t *rapid.T) multiCase {
 		}
 		for f := 0; f < nf; f++ {
 			lk := rapid.IntRange(0, len(lenClasses)-1).Draw(t, "lenk")
-			maxLines := []int{2000, 2000, 1000, 200, 100, 60, 20}[lk]
+			maxLines := []int{2000, 2000, 1000, 200, 100, 60, 40, 25}[lk]
 			c.Sources = append(c.Sources, source{Server: k, File: f, Lines: rapid.IntRange(1, maxLines).Draw(t, "lines"), LenK: lk, Seed: rapid.IntRange(0, 1000).Draw(t, "seed")})
 		}
 	}
@@ -158,7 +178,7 @@ func evalCase(c multiCase) lib.Outcome {
 	cdir := filepath.Join(root, fmt.Sprintf("case%d", id%64))
 	os.RemoveAll(cdir)
 	defer os.RemoveAll(cdir)
-	big, long, split := 0, false, false
+	big, long, split, huge := 0, false, false, false
 	grepRe := regexp.MustCompile(`^S[0-9]+-F[0-9]+-L[0-9]*[02468]-`)
 	// per source: the pieces the server makes of the file (lines cut at MaxLineLength) and which of them must be printed
 	pieces := map[string][][]byte{}
@@ -173,7 +193,7 @@ func evalCase(c multiCase) lib.Outcome {
 		}
 		os.WriteFile(filepath.Join(d, fmt.Sprintf("f%d.log", s.File)), b.Bytes(), 0o644)
 		id := fmt.Sprintf("srv%d/f%d.log", s.Server, s.File)
-		ps := model.Pieces(model.SplitLong(b.Bytes(), maxLineLength))
+		ps := model.Pieces(model.SplitLong(b.Bytes(), llOf(c, s.Server)))
 		for i := range ps {
 			ps[i] = bytes.TrimSuffix(ps[i], []byte("\n"))
 		}
@@ -200,6 +220,9 @@ func evalCase(c multiCase) lib.Outcome {
 		if lenClasses[s.LenK] > 8192 {
 			long = true
 		}
+		if lenClasses[s.LenK] > 32768 && llOf(c, s.Server) > 70000 {
+			huge = true
+		}
 	}
 	o.NonTrivial = big >= 2 || long
 	o.Classes = []string{fmt.Sprintf("sources=%d", len(c.Sources))}
@@ -208,6 +231,9 @@ func evalCase(c multiCase) lib.Outcome {
 	}
 	if split {
 		o.Classes = append(o.Classes, "line-split-at-MaxLineLength")
+	}
+	if huge {
+		o.Classes = append(o.Classes, "record>32KiB")
 	}
 	if c.Serverless {
 		o.Classes = append(o.Classes, "serverless")
@@ -219,7 +245,7 @@ func evalCase(c multiCase) lib.Outcome {
 		o.Classes = append(o.Classes, "grep-context")
 	}
 	cfgPath := filepath.Join(cdir, "client.json")
-	lib.WriteCfg(cfgPath, lib.ServerCfg{MaxLineLength: maxLineLength, MaxConcurrentCats: 2})
+	lib.WriteCfg(cfgPath, lib.ServerCfg{MaxLineLength: llOf(c, 0), MaxConcurrentCats: 2})
 	glob := filepath.Join(cdir, "*", "*.log")
 	bin := "dcat"
 	args := []string{"--noColor", "--logLevel", "error", "--cfg", cfgPath}
@@ -357,6 +383,6 @@ func tail(b []byte) string {
 
 func TestC07Interleave(t *testing.T) {
 	lib.Run(t, lib.Spec[multiCase]{Prop: "C07", Check: "interleave",
-		Rule: "dcat / dgrep --noColor (record mode) with one glob against 2..6 real servers over SSH (distinct host labels; each server may only serve its own directory) x 1..4 files each, or serverless over 2..5 files; 1..2000 tagged lines per source with lengths from 1 B to 30 KiB incl. a class around MaxLineLength (6000 on servers and client, so longer lines arrive as numbered pieces); dgrep with and without --before/--after/--max; oracle: every output line is a well-formed log record or REMOTE|host|100|n|id|content with (host,id) a real source and content == piece n of that source; per source the sequence of n is exactly the index list the grep reference model prescribes (1,2,3,... for dcat), nothing missing or repeated; exit 0; non-trivial = >=2 sources with >=50 lines each, or a line > 8 KiB; distinct by case",
+		Rule: "dcat / dgrep --noColor (record mode) with one glob against 2..6 real servers over SSH (distinct host labels; each server may only serve its own directory) x 1..4 files each, or serverless over 2..5 files; 1..2000 tagged lines per source with lengths from 1 B to 70 KiB incl. a class around MaxLineLength (6000 on half of the servers, so longer lines arrive as numbered pieces; 1 MiB on the others, so records of up to 70 KiB span several transport reads); dgrep with and without --before/--after/--max; oracle: every output line is a well-formed log record or REMOTE|host|100|n|id|content with (host,id) a real source and content == piece n of that source; per source the sequence of n is exactly the index list the grep reference model prescribes (1,2,3,... for dcat), nothing missing or repeated; exit 0; non-trivial = >=2 sources with >=50 lines each, or a line > 8 KiB; distinct by case",
 		Gen:  genCase, Eval: evalCase})
 }
